@@ -141,13 +141,14 @@ def run_harness(binary, args, seeds, concrete=False, tag="", timeout=300, env_ex
 ANGLE_W = [Fraction(p, r) for r in (2, 3, 4, 5) for p in range(-r + 1, r) if p and math.gcd(p, r) == 1]
 
 
-PYTH4 = [(1, 2, 2, 4), (2, 4, 5, 6), (1, 4, 4, 4), (2, 3, 6, 0), (1, 2, 8, 10), (4, 4, 7, 0), (2, 2, 1, 0), (1, 1, 1, 1), (3, 3, 3, 3)]
-# squares sum to 25, 81, 49, 49, 169, 81, 9, 4, 36
+PYTH4 = [((1, 2, 2, 4), 5), ((2, 4, 5, 6), 9), ((1, 4, 4, 4), 7), ((2, 3, 6, 0), 7), ((1, 2, 8, 10), 13), ((4, 4, 7, 0), 9),
+         ((2, 2, 1, 0), 3), ((1, 1, 1, 1), 2), ((3, 3, 3, 3), 6)]     # a^2+b^2+c^2+d^2 = e^2: exactly unit quaternions (a,b,c,d)/e
 
 
 def plan_seeds(inputs, rng, base_index, Lmap=None):
     """deterministic exact base point: returns (seeds: name->float, angle_pins: name->(Fraction w, L))"""
     seeds, pins = {}, {}
+    exact = {}
     Lmap = Lmap or {}
     nquat = 0
     quad, qscale = None, None
@@ -164,11 +165,14 @@ def plan_seeds(inputs, rng, base_index, Lmap=None):
         elif kind == "quat":
             # consecutive groups of four 'quat' inputs get a scaled Pythagorean quadruple: rational norm
             if nquat % 4 == 0:
-                quad = list(rng.choice(PYTH4))
+                quad, e = rng.choice(PYTH4)
+                quad = list(quad)
                 rng.shuffle(quad)
                 quad = [x * rng.choice((1, -1)) for x in quad]
-                qscale = rng.choice((Fraction(1, 8), Fraction(1, 4), Fraction(1, 16)))
-            seeds[name] = float(quad[nquat % 4] * qscale)
+                qscale = Fraction(1, e)
+                qpin = [Fraction(x, e) for x in quad]
+            seeds[name] = float(qpin[nquat % 4])
+            exact[name] = qpin[nquat % 4]
             nquat += 1
         else:
             if base_index == 0:
@@ -180,6 +184,7 @@ def plan_seeds(inputs, rng, base_index, Lmap=None):
             if v2 == 0 and dflt != 0:
                 v2 = round(v * 256) / 256.0 or dflt
             seeds[name] = v2
+    pins["__exact__"] = exact
     return seeds, pins
 
 
